@@ -26,6 +26,8 @@ type Connection struct {
 	beginClosingOnce  sync.Once
 	finishClosingOnce sync.Once
 	didInit           bool
+	didInitOnce       sync.Once
+	didInitSignal     chan struct{}
 }
 
 // ConnectionHandler methods may be invoked on a separate goroutine, but invocations will never be
@@ -67,6 +69,7 @@ func (c *Connection) Serve(conn *websocket.Conn) {
 	c.close = make(chan struct{})
 	c.closeReceived = make(chan struct{})
 	c.closeMessage = make(chan []byte, 1)
+	c.didInitSignal = make(chan struct{})
 	conn.SetCloseHandler(func(code int, text string) error {
 		select {
 		case <-c.closeReceived:
@@ -185,7 +188,13 @@ func (c *Connection) handleMessage(ctx context.Context, data []byte) {
 		}); err != nil {
 			c.Handler.LogError(errors.Wrap(err, "unable to send graphql-ws connection ack"))
 			c.beginClosing(websocket.CloseInternalServerErr, "ack send error")
-		} else if err := c.sendMessage(ctx, &Message{
+			return
+		}
+		// the ack is queued: the write loop may start its periodic keep-alives
+		c.didInitOnce.Do(func() {
+			close(c.didInitSignal)
+		})
+		if err := c.sendMessage(ctx, &Message{
 			Type: MessageTypeConnectionKeepAlive,
 		}); err != nil {
 			c.Handler.LogError(errors.Wrap(err, "unable to send graphql-ws initial keep-alive"))
@@ -241,12 +250,20 @@ func (c *Connection) writeLoop() {
 
 	defer c.conn.Close()
 
+	// Keep-alives are only sent once the connection has been acknowledged: the ticker is started
+	// when the read loop signals that the ack has been queued.
 	keepAliveTicker := time.NewTicker(15 * time.Second)
 	defer keepAliveTicker.Stop()
+	keepAliveTicker.Stop()
+	didInit := c.didInitSignal
 
 	for {
 		var msg *websocket.PreparedMessage
 		select {
+		case <-didInit:
+			didInit = nil
+			keepAliveTicker.Reset(15 * time.Second)
+			continue
 		case outgoing := <-c.outgoing:
 			msg = outgoing
 		case <-keepAliveTicker.C:
